@@ -978,7 +978,7 @@ fn history_cases() -> Vec<Case> {
                         continue;
                     }
                     let mut c = Case::from_segs("history", eff.clone(), if is_custom(&eff) { "preset" } else { "default" }, segs.clone(), None, 0);
-                    c.x = Extra { history, via_template: (ri + si) % 2 == 1, wseed: (ri * 31 + si) as u64 };
+                    c.x = Extra { history, via_template: (ri + si) % 2 == 1, wseed: (ri * 31 + si) as u64, file_route: 1 + ((ri + si) % 3) as u8 };
                     out.push(c);
                 }
             }
@@ -1084,6 +1084,9 @@ struct Extra {
     via_template: bool,
     /// seed of the random short-write writer
     wseed: u64,
+    /// template loaded from a file: 0 no, 1 `add_template_file(path, Some("t"))`,
+    /// 2 `add_template_files([(side, "u"), (path, "t")])`, 3 `add_template_file(path, None)`
+    file_route: u8,
 }
 
 impl Case {
@@ -1103,6 +1106,7 @@ impl Case {
             "autoescape": false,
             "history": self.x.history.iter().map(|c| json!({"delimiters": c.d.to_json(), "expect_ok": c.ok, "why": c.why})).collect::<Vec<_>>(),
             "via_template": self.x.via_template,
+            "file_route": {"kind": self.x.file_route, "api": FILE_APIS[self.x.file_route as usize]},
             "writers": {"kinds": WRITERS, "random_seed": self.x.wseed.to_string()},
             "detail": extra,
             "rerun": "harness/target/release/c08 --replay <this file>",
@@ -1121,6 +1125,8 @@ struct Outcome {
     wstats: [(u64, u64, u64); 3],
     /// the last rejected set of the history would lex this source differently from the effective one
     history_visible: bool,
+    /// the file route was asked for but the scratch file could not be written
+    file_io_error: bool,
 }
 
 thread_local! {
@@ -1255,6 +1261,76 @@ fn history_render(c: &Case, tok_filt: &str) -> (Vec<Result<bool, String>>, Strin
         let r2 = catch(std::panic::AssertUnwindSafe(|| tera.render_str_to(&c.src, &ctx, false, &mut w)));
         (got, r1, wire_of(r2.map(|r| r.map(|_| w.buf)), tok_filt))
     }
+}
+
+// ---- file route: a template loaded from a file is read with the instance's delimiter set
+
+const FILE_APIS: [&str; 4] = ["none", "add_template_file(path, Some(name))", "add_template_files([side, (path, name)])", "add_template_file(path, None)"];
+static THREAD_IDS: std::sync::atomic::AtomicUsize = std::sync::atomic::AtomicUsize::new(0);
+thread_local! {
+    /// this thread's scratch directory (created on first use) and a file counter
+    static FILE_DIR: RefCell<(Option<std::path::PathBuf>, u64)> = const { RefCell::new((None, 0)) };
+}
+
+fn scratch_root() -> std::path::PathBuf {
+    std::env::temp_dir().join(format!("tera_verif_c08_{}", std::process::id()))
+}
+
+/// a fresh file path in this thread's scratch directory
+fn next_file() -> std::io::Result<std::path::PathBuf> {
+    FILE_DIR.with(|cell| {
+        let mut st = cell.borrow_mut();
+        if st.0.is_none() {
+            let dir = scratch_root().join(THREAD_IDS.fetch_add(1, std::sync::atomic::Ordering::SeqCst).to_string());
+            std::fs::create_dir_all(&dir)?;
+            st.0 = Some(dir);
+        }
+        st.1 += 1;
+        Ok(st.0.as_ref().unwrap().join(format!("f{}.tpl", st.1)))
+    })
+}
+
+/// The source written to a file, loaded through a file entry point on an instance that has the
+/// case's delimiter set (installed by the case's history when it has one), then rendered by name.
+/// Err = the scratch file could not be written (not an observation about the engine).
+fn file_render(c: &Case, tok_filt: &str) -> Result<String, String> {
+    let path = next_file().map_err(|e| e.to_string())?;
+    std::fs::write(&path, c.src.as_bytes()).map_err(|e| e.to_string())?;
+    let side = path.with_extension("side");
+    if c.x.file_route == 2 {
+        std::fs::write(&side, b"side file").map_err(|e| e.to_string())?;
+    }
+    let mut tera = Tera::default();
+    let wire = (|| {
+        if c.x.history.is_empty() {
+            if is_custom(&c.d) && tera.set_delimiters(c.d.to_delimiters()).is_err() {
+                return "err:delimiters_rejected".to_string();
+            }
+        } else {
+            for call in &c.x.history {
+                let _ = catch(std::panic::AssertUnwindSafe(|| tera.set_delimiters(call.d.to_delimiters()).is_ok()));
+            }
+        }
+        let path_name = path.to_string_lossy().to_string();
+        let name: &str = if c.x.file_route == 3 { &path_name } else { "t" };
+        let added = catch(std::panic::AssertUnwindSafe(|| match c.x.file_route {
+            2 => tera.add_template_files(vec![(side.clone(), Some("u")), (path.clone(), Some("t"))]),
+            3 => tera.add_template_file(&path, None),
+            _ => tera.add_template_file(&path, Some("t")),
+        }));
+        match added {
+            Ok(Ok(())) => {}
+            Ok(Err(e)) => return wire_of(Ok(Err(e)), tok_filt),
+            Err(p) => return format!("panic:{p}"),
+        }
+        let ctx = context();
+        wire_of(catch(std::panic::AssertUnwindSafe(|| tera.render(name, &ctx).map(String::into_bytes))), tok_filt)
+    })();
+    let _ = std::fs::remove_file(&path);
+    if c.x.file_route == 2 {
+        let _ = std::fs::remove_file(&side);
+    }
+    Ok(wire)
 }
 
 fn history_text(c: &Case) -> String {
@@ -1412,7 +1488,27 @@ fn run_case(c: &Case) -> Outcome {
             history_visible = canon_tokens(&c.src, &last.d, false) != tok_raw;
         }
     }
-    Outcome { tok_raw, tok_filt, rend, checks, fail, wstats, history_visible }
+    // file route: same bytes when the template comes from a file
+    let mut file_io_error = false;
+    if c.x.file_route != 0 {
+        match file_render(c, &tok_filt) {
+            Err(_) => file_io_error = true,
+            Ok(w) => {
+                checks += 1;
+                if w != rend {
+                    let hist = if c.x.history.is_empty() { String::new() } else { format!(" after the calls [{}]", history_text(c)) };
+                    set(format!(
+                        "file-route: the source loaded from a file with {} on an instance with delimiters {:?}{hist} renders `{}`; given as a string it renders `{}`",
+                        FILE_APIS[c.x.file_route as usize],
+                        c.d.fields(),
+                        short(&w),
+                        short(&rend)
+                    ));
+                }
+            }
+        }
+    }
+    Outcome { tok_raw, tok_filt, rend, checks, fail, wstats, history_visible, file_io_error }
 }
 
 fn short(s: &str) -> String {
@@ -1644,6 +1740,11 @@ fn history_candidates(c: &Case) -> Vec<Case> {
         n.x.via_template = false;
         out.push(n);
     }
+    if c.x.file_route > 1 {
+        let mut n = c.clone();
+        n.x.file_route = 1;
+        out.push(n);
+    }
     out
 }
 
@@ -1745,7 +1846,7 @@ fn replay(path: &str, env: &Env) {
         .map(|a| a.iter().filter_map(|h| Some(Call { d: D::from_json(&h["delimiters"])?, ok: h["expect_ok"].as_bool()?, why: "replay" })).collect())
         .unwrap_or_default();
     let wseed = j["writers"]["random_seed"].as_str().and_then(|s| s.parse::<u64>().ok()).unwrap_or(0);
-    let x = Extra { history, via_template: j["via_template"].as_bool().unwrap_or(false), wseed };
+    let x = Extra { history, via_template: j["via_template"].as_bool().unwrap_or(false), wseed, file_route: j["file_route"]["kind"].as_u64().unwrap_or(0).min(3) as u8 };
     let c = Case { stream: "structured", d: d.clone(), dclass: "replay", segs: segs.clone(), src: src.clone(), d2: d2.clone(), fixed: 0, x };
     let o = run_case(&c);
     println!("delimiters: {:?}  (accepted: {})", d.fields(), d.accepted());
@@ -1779,6 +1880,13 @@ fn replay(path: &str, env: &Env) {
         println!("  then {api}:            {r1}   [{}]", if r1 == o.rend { "same as a clean instance" } else { "DIFFERS from a clean instance" });
         println!("  then its writer path:  {r2}");
     }
+    if c.x.file_route != 0 {
+        match file_render(&c, &o.tok_filt) {
+            Ok(w) => println!("file route, {}: {w}   [{}]", FILE_APIS[c.x.file_route as usize], if w == o.rend { "same bytes as the string route" } else { "DIFFERS from the string route" }),
+            Err(e) => println!("file route: scratch file could not be written ({e})"),
+        }
+    }
+    let _ = std::fs::remove_dir_all(scratch_root());
     println!("direct oracle: {}", o.fail.clone().unwrap_or_else(|| "holds".into()));
     let exe = driver::driver_path(&env.verif_dir, "drv_c08");
     let reqs: Vec<String> = (0..3).map(|s| request(&c, s)).collect();
@@ -1859,6 +1967,19 @@ fn tally(report: &mut Report, c: &Case, o: &Outcome) {
         }
         if o.history_visible {
             report.count("history.last_rejected_set_would_change_lexing");
+        }
+    }
+    if c.x.file_route != 0 {
+        if o.file_io_error {
+            report.count("file-route.io_error");
+        } else {
+            report.count("file-route.cases");
+            report.count(&format!("file-route.api.{}", ["", "add_template_file_named", "add_template_files", "add_template_file_unnamed"][c.x.file_route as usize]));
+            report.count(if is_custom(&c.d) { "file-route.custom_delimiters" } else { "file-route.default_delimiters" });
+            report.count(&format!("file-route.stream.{}", c.stream));
+            if !c.x.history.is_empty() {
+                report.count("file-route.with_history");
+            }
         }
     }
     let Some(segs) = &c.segs else { return };
@@ -1943,6 +2064,10 @@ fn attach_extra(c: &mut Case, rng: &mut Rng) {
     if c.stream != "adversarial" && rng.chance(1, 5) {
         c.x.history = gen_history(rng, &c.d, &c.src);
         c.x.via_template = rng.chance(1, 2);
+    }
+    // file route: every custom-delimiter case, one default-delimiter case in six
+    if c.stream != "adversarial" && (is_custom(&c.d) || rng.chance(1, 6)) {
+        c.x.file_route = 1 + rng.below(3) as u8;
     }
 }
 
@@ -2062,7 +2187,12 @@ fn main() {
     for (d, segs) in exhaustive_cases() {
         let class = if is_custom(&d) { "preset" } else { "default" };
         if spells_cleanly(&segs, &d) {
-            fixed_cases.push(Case::from_segs("exhaustive", d, class, segs, None, 0));
+            let mut c = Case::from_segs("exhaustive", d, class, segs, None, 0);
+            let k = fixed_cases.len();
+            if is_custom(&c.d) || k % 8 == 0 {
+                c.x.file_route = 1 + (k % 3) as u8;
+            }
+            fixed_cases.push(c);
         } else {
             report.count("exhaustive.unspellable_skipped");
         }
@@ -2220,7 +2350,7 @@ fn main() {
         }
     };
     // simplest first: default delimiters, short sources; one failure class after the other
-    failures.sort_by_key(|(c, _)| (is_custom(&c.d), c.src.len()));
+    failures.sort_by_key(|(c, _)| (is_custom(&c.d), c.dclass != "preset", c.d.fields().iter().any(|f| !f.is_ascii()), c.src.len()));
     {
         let mut seen_class: HashMap<String, usize> = HashMap::new();
         let mut rank: Vec<(usize, usize)> = failures.iter().enumerate().map(|(i, (_, f))| {
@@ -2318,5 +2448,6 @@ fn main() {
             .into(),
     );
     report.rule = "distinct (delimiter set, source) pairs that rendered successfully and contain a dashed marker directly next to a text, raw body or comment, or a raw block, or use a custom delimiter set; for no-start sources: non-empty and either under a custom delimiter set or containing a delimiter character or non-ASCII whitespace; adversarial (token-stage only) sources are not counted".into();
+    let _ = std::fs::remove_dir_all(scratch_root());
     report.write(&out_path());
 }
